@@ -33,7 +33,7 @@ def char_param(name, strings, width=None, desc='', locked=False, dims_tail=None)
     for x in strings: vals += padded(x, width)
     return Param(name, -1, [width] + (dims_tail if dims_tail is not None else [len(strings)]), vals, desc, locked)
 
-def make_content(S, P=2, C=1, sub=2, F=2, labels='equal', analog='full', extras=(), first=1, events=0, label_len=4, gid_map=None, symbolic_meta=True, desc_len=2, reserved=False, fixed_plabels=None, fixed_alabels=None, units_per_point=False):
+def make_content(S, P=2, C=1, sub=2, F=2, labels='equal', analog='full', extras=(), first=1, events=0, label_len=4, gid_map=None, symbolic_meta=True, desc_len=2, reserved=False, fixed_plabels=None, fixed_alabels=None, units_per_point=False, concrete_data=False):
     """S: Syms.  Returns Content whose payload is symbolic."""
     c = Content()
     c.nb_points = P; c.nb_channels = C; c.sub = sub if C else (sub if analog == 'full' else 0)
@@ -87,9 +87,12 @@ def make_content(S, P=2, C=1, sub=2, F=2, labels='equal', analog='full', extras=
         c.key_block = S.bv('kb', 16)
         for w in (13, 14, 80, 147, 152, 198, 235, 256): c.reserved[w] = S.bv('rsv', 16)
     # frames
+    import random as _r
+    rr = _r.Random(17)
+    cf = (lambda t: (rr.getrandbits(32) & 0x7f7fffff) | 0x00000001 | (rr.randint(1, 255))) if concrete_data else S.f32     # concrete data: finite floats, low byte never 0
     for f in range(F):
-        pts = [[S.f32('x'), S.f32('y'), S.f32('z'), S.f32('r')] for _ in range(P)]
-        an = [[S.f32('a') for _ in range(C)] for _ in range(c.sub)]
+        pts = [[cf('x'), cf('y'), cf('z'), cf('r')] for _ in range(P)]
+        an = [[cf('a') for _ in range(C)] for _ in range(c.sub)]
         c.frames.append((pts, an))
     return c
 
@@ -97,7 +100,7 @@ def make_extra(S, e):
     """e: dict(name, type, dims, desc_len, locked, pad (for 1-D strings), slen)"""
     t = e['type']; dims = list(e.get('dims', [])); n = 1
     for d in dims: n *= d
-    desc = S.text('xdesc', e.get('desc_len', 0), 1)
+    desc = S.text('xdesc', e.get('desc_len', 0), 1) if not e.get('concrete_desc') else [ord('d')] * e.get('desc_len', 0)
     if t == 2: vals = [S.bv('xi', 16) for _ in range(n)]
     elif t == 1: vals = [S.bv('xb', 8) for _ in range(n)]
     elif t == 4: vals = [S.f32('xf') for _ in range(n)]
